@@ -1,0 +1,432 @@
+//! Verification hooks. Compiled only with `--cfg scylla_verif`.
+//!
+//! Everything here is a constructor, an accessor or a pass-through to
+//! crate-private code; nothing changes the behaviour of the driver.
+
+use std::collections::HashMap;
+use std::net::SocketAddr;
+use std::sync::atomic::{AtomicU8, Ordering};
+use std::sync::{Arc, Mutex};
+use std::time::Duration;
+
+use bytes::Bytes;
+use uuid::Uuid;
+
+use crate::cluster::metadata::{Keyspace, Strategy, Table};
+use crate::cluster::{ClusterState, Node};
+use crate::errors::{RequestAttemptError, RequestError};
+use crate::frame::response::result::{ColumnSpec, ColumnType, TableSpec};
+use crate::frame::types::Consistency;
+use crate::policies::retry::RequestInfo;
+use crate::policies::speculative_execution::{Context, SpeculativeExecutionPolicy};
+use crate::routing::locator::tablets::RawTablet;
+use crate::routing::partitioner::PartitionerName;
+use crate::routing::{Shard, Sharder, Token};
+use crate::statement::prepared::{PreparedStatement, RawPreparedStatement};
+use crate::statement::unprepared::Statement;
+
+pub use crate::network::verif_hooks::{VerifHandlerMap, VerifLookup};
+
+// ---------------------------------------------------------------------------
+// Nodes
+// ---------------------------------------------------------------------------
+
+/// Per-node override of what the connection pool would report.
+#[derive(Debug, Default)]
+pub struct NodeOverride {
+    // 0 = no override, 1 = disabled, 2 = enabled but down, 3 = enabled and up
+    state: AtomicU8,
+    // Some(None) = "not a ScyllaDB node", Some(Some(s)) = sharded node.
+    sharder: Mutex<Option<Option<Sharder>>>,
+}
+
+impl NodeOverride {
+    pub(crate) fn enabled(&self) -> Option<bool> {
+        match self.state.load(Ordering::SeqCst) {
+            0 => None,
+            s => Some(s >= 2),
+        }
+    }
+    pub(crate) fn connected(&self) -> Option<bool> {
+        match self.state.load(Ordering::SeqCst) {
+            0 => None,
+            s => Some(s == 3),
+        }
+    }
+    pub(crate) fn sharder(&self) -> Option<Option<Sharder>> {
+        self.sharder.lock().unwrap().clone()
+    }
+}
+
+/// State of an in-memory node.
+#[derive(Debug, Clone, Copy, PartialEq, Eq)]
+pub enum NodeState {
+    Disabled,
+    Down,
+    Up,
+}
+
+pub fn node(
+    host_id: Uuid,
+    address: SocketAddr,
+    datacenter: Option<String>,
+    rack: Option<String>,
+    state: NodeState,
+    sharder: Option<Sharder>,
+) -> Arc<Node> {
+    let node = Node::verif_new(host_id, address, datacenter, rack);
+    set_node_state(&node, state);
+    *node.verif.sharder.lock().unwrap() = Some(sharder);
+    Arc::new(node)
+}
+
+pub fn set_node_state(node: &Node, state: NodeState) {
+    node.verif.state.store(
+        match state {
+            NodeState::Disabled => 1,
+            NodeState::Down => 2,
+            NodeState::Up => 3,
+        },
+        Ordering::SeqCst,
+    );
+}
+
+// ---------------------------------------------------------------------------
+// Cluster state
+// ---------------------------------------------------------------------------
+
+pub struct TableDesc {
+    pub name: String,
+    /// Partition key columns, in partition key order.
+    pub partition_key: Vec<(String, ColumnType<'static>)>,
+    pub partitioner: Option<String>,
+}
+
+pub struct KeyspaceDesc {
+    pub name: String,
+    pub strategy: Strategy,
+    pub tablet_based: bool,
+    pub tables: Vec<TableDesc>,
+}
+
+fn build_keyspaces(keyspaces: Vec<KeyspaceDesc>) -> HashMap<String, Keyspace> {
+    keyspaces
+        .into_iter()
+        .map(|ks| {
+            let tables = ks
+                .tables
+                .into_iter()
+                .map(|t| {
+                    let pk_column_specs = t
+                        .partition_key
+                        .iter()
+                        .map(|(name, typ)| {
+                            ColumnSpec::owned(
+                                name.clone(),
+                                typ.clone(),
+                                TableSpec::owned(ks.name.clone(), t.name.clone()),
+                            )
+                        })
+                        .collect();
+                    (
+                        t.name.clone(),
+                        Table {
+                            columns: HashMap::new(),
+                            partition_key: t.partition_key.iter().map(|(n, _)| n.clone()).collect(),
+                            clustering_key: vec![],
+                            partitioner: t.partitioner,
+                            pk_column_specs,
+                        },
+                    )
+                })
+                .collect();
+            (
+                ks.name,
+                Keyspace {
+                    strategy: ks.strategy,
+                    durable_writes: true,
+                    tablet_based: ks.tablet_based,
+                    tables,
+                    views: HashMap::new(),
+                    user_defined_types: HashMap::new(),
+                },
+            )
+        })
+        .collect()
+}
+
+fn build_ring(nodes: &[(Arc<Node>, Vec<i64>)]) -> Vec<(Token, Arc<Node>)> {
+    nodes
+        .iter()
+        .flat_map(|(n, toks)| toks.iter().map(|t| (Token::new(*t), Arc::clone(n))))
+        .collect()
+}
+
+/// Builds a `ClusterState` in memory. `precompute` are the strategies whose
+/// replica sets are precomputed (the driver does that for the strategies of
+/// all non-tablet keyspaces).
+pub fn cluster_state(
+    nodes: &[(Arc<Node>, Vec<i64>)],
+    keyspaces: Vec<KeyspaceDesc>,
+    precompute: &[Strategy],
+) -> ClusterState {
+    ClusterState::verif_new(
+        nodes.iter().map(|(n, _)| Arc::clone(n)).collect(),
+        build_ring(nodes),
+        build_keyspaces(keyspaces),
+        precompute,
+    )
+}
+
+/// The state following `prev` after a metadata refresh that reported `nodes`
+/// and `keyspaces`; tablets are carried over and maintained.
+pub fn cluster_state_updated(
+    prev: &ClusterState,
+    nodes: &[(Arc<Node>, Vec<i64>)],
+    keyspaces: Vec<KeyspaceDesc>,
+    precompute: &[Strategy],
+) -> ClusterState {
+    prev.verif_new_updated(
+        nodes.iter().map(|(n, _)| Arc::clone(n)).collect(),
+        build_ring(nodes),
+        build_keyspaces(keyspaces),
+        precompute,
+    )
+}
+
+// ---------------------------------------------------------------------------
+// Tablets
+// ---------------------------------------------------------------------------
+
+/// Outcome of feeding a custom payload to the tablet machinery.
+#[derive(Debug)]
+pub enum TabletFeed {
+    /// The payload has no tablet entry.
+    NoTablet,
+    /// The tablet entry could not be parsed / validated.
+    Rejected(String),
+    /// The tablet was handed to the cluster state.
+    Applied,
+}
+
+/// Decodes the `tablets-routing-v1` entry of a response's custom payload and, if valid,
+/// applies it to `state` the way the cluster worker does.
+pub fn feed_tablet_payload(
+    state: &mut ClusterState,
+    keyspace: &str,
+    table: &str,
+    payload: &HashMap<String, Bytes>,
+) -> TabletFeed {
+    match RawTablet::from_custom_payload(payload) {
+        None => TabletFeed::NoTablet,
+        Some(Err(e)) => TabletFeed::Rejected(e.to_string()),
+        Some(Ok(raw)) => {
+            state.verif_update_tablets(vec![(
+                TableSpec::owned(keyspace.to_owned(), table.to_owned()),
+                raw,
+            )]);
+            TabletFeed::Applied
+        }
+    }
+}
+
+/// Only decodes the payload (for decoder robustness checks).
+pub fn decode_tablet_payload(payload: &HashMap<String, Bytes>) -> Option<Result<String, String>> {
+    RawTablet::from_custom_payload(payload)
+        .map(|r| r.map(|t| format!("{t:?}")).map_err(|e| e.to_string()))
+}
+
+/// One known tablet: (first token, last token, replicas, replicas per datacenter).
+pub type TabletView = (
+    i64,
+    i64,
+    Vec<(Arc<Node>, Shard)>,
+    HashMap<String, Vec<(Arc<Node>, Shard)>>,
+);
+
+/// The tablets known for a table, in the order the driver keeps them;
+/// `None` if the table is not known as a tablet table.
+pub fn tablet_ranges(state: &ClusterState, keyspace: &str, table: &str) -> Option<Vec<TabletView>> {
+    let spec = TableSpec::borrowed(keyspace, table);
+    state
+        .locator
+        .tablets
+        .tablets_for_table(&spec)
+        .map(|t| t.verif_ranges())
+}
+
+// ---------------------------------------------------------------------------
+// Merge channel
+// ---------------------------------------------------------------------------
+
+pub mod merge_channel {
+    use crate::cluster::metadata::merge_channel as mc;
+
+    pub struct Sender<T>(mc::Sender<T>);
+    pub struct Receiver<T>(mc::Receiver<T>);
+
+    pub fn channel<T>() -> (Sender<T>, Receiver<T>) {
+        let (s, r) = mc::merge_channel();
+        (Sender(s), Receiver(r))
+    }
+
+    impl<T> Sender<T> {
+        /// `Err(())` iff the receiver is gone (and then `f` was not run).
+        #[allow(clippy::result_unit_err)]
+        pub fn modify<F: FnOnce(&mut Option<T>)>(&mut self, f: F) -> Result<(), ()> {
+            self.0.modify(f).map_err(|_| ())
+        }
+    }
+
+    impl<T> Receiver<T> {
+        pub fn try_recv(&mut self) -> Option<T> {
+            self.0.try_recv()
+        }
+        pub async fn recv(&mut self) -> Option<T> {
+            self.0.recv().await
+        }
+    }
+}
+
+// ---------------------------------------------------------------------------
+// Speculative execution
+// ---------------------------------------------------------------------------
+
+pub async fn speculative_execute<QueryFut, T>(
+    policy: &dyn SpeculativeExecutionPolicy,
+    query_runner_generator: impl FnMut(bool) -> QueryFut,
+) -> Result<T, RequestError>
+where
+    QueryFut: Future<Output = Option<Result<T, RequestError>>>,
+{
+    let context = Context {
+        #[cfg(feature = "metrics")]
+        metrics: Arc::new(crate::observability::metrics::Metrics::new()),
+    };
+    crate::policies::speculative_execution::execute(policy, &context, query_runner_generator).await
+}
+
+// ---------------------------------------------------------------------------
+// Sharding
+// ---------------------------------------------------------------------------
+
+/// `None` when the range is not a valid shard-aware port range.
+pub fn draw_source_port_for_shard_from_range(
+    sharder: &Sharder,
+    shard: Shard,
+    lo: u16,
+    hi: u16,
+) -> Option<Option<u16>> {
+    let range = crate::routing::ShardAwarePortRange::new(lo..=hi).ok()?;
+    Some(sharder.draw_source_port_for_shard_from_range(shard, &range))
+}
+
+pub fn iter_source_ports_for_shard_from_range(
+    sharder: &Sharder,
+    shard: Shard,
+    lo: u16,
+    hi: u16,
+) -> Option<Vec<u16>> {
+    let range = crate::routing::ShardAwarePortRange::new(lo..=hi).ok()?;
+    Some(
+        sharder
+            .iter_source_ports_for_shard_from_range(shard, &range)
+            .collect(),
+    )
+}
+
+/// Parses the sharding entries of a SUPPORTED options map:
+/// `Ok((shard, nr_shards, msb_ignore))` or the error's text.
+pub fn parse_shard_info(options: &HashMap<String, Vec<String>>) -> Result<(u16, u16, u8), String> {
+    crate::routing::ShardInfo::try_from(options)
+        .map(|i| (i.shard, i.nr_shards.get(), i.msb_ignore))
+        .map_err(|e| e.to_string())
+}
+
+// ---------------------------------------------------------------------------
+// Retry policies
+// ---------------------------------------------------------------------------
+
+pub fn request_info<'a>(
+    error: &'a RequestAttemptError,
+    is_idempotent: bool,
+    consistency: Consistency,
+) -> RequestInfo<'a> {
+    RequestInfo {
+        error,
+        is_idempotent,
+        consistency,
+    }
+}
+
+// ---------------------------------------------------------------------------
+// Prepared statements
+// ---------------------------------------------------------------------------
+
+/// Builds a `PreparedStatement` exactly as the session does from a decoded
+/// `RESULT/Prepared` response.
+pub fn prepared_statement(
+    text: &str,
+    prepared: crate::frame::response::result::Prepared,
+    partitioner: Option<&str>,
+    is_lwt: bool,
+) -> PreparedStatement {
+    let statement = Statement::new(text);
+    let mut ps = RawPreparedStatement::new(&statement, prepared, is_lwt, None).into_prepared_statement();
+    ps.set_partitioner_name(
+        partitioner
+            .and_then(PartitionerName::from_str)
+            .unwrap_or_default(),
+    );
+    ps
+}
+
+// ---------------------------------------------------------------------------
+// Scriptable clock for the monotonic timestamp generator
+// ---------------------------------------------------------------------------
+
+pub mod clock {
+    use std::sync::atomic::{AtomicBool, AtomicI64, Ordering};
+    use std::time::Duration;
+
+    static SCRIPTED: AtomicBool = AtomicBool::new(false);
+    static MICROS: AtomicI64 = AtomicI64::new(0);
+
+    /// `Some(us)`: the generator reads `us` microseconds since the epoch
+    /// (negative: before the epoch). `None`: the real clock.
+    pub fn set(micros: Option<i64>) {
+        match micros {
+            Some(us) => {
+                MICROS.store(us, Ordering::SeqCst);
+                SCRIPTED.store(true, Ordering::SeqCst);
+            }
+            None => SCRIPTED.store(false, Ordering::SeqCst),
+        }
+    }
+
+    pub(crate) struct SystemTime(Option<i64>);
+
+    impl SystemTime {
+        pub(crate) fn now() -> Self {
+            if SCRIPTED.load(Ordering::SeqCst) {
+                SystemTime(Some(MICROS.load(Ordering::SeqCst)))
+            } else {
+                SystemTime(None)
+            }
+        }
+
+        #[allow(clippy::result_unit_err)]
+        pub(crate) fn duration_since(&self, epoch: std::time::SystemTime) -> Result<Duration, ()> {
+            match self.0 {
+                Some(us) if us >= 0 => Ok(Duration::from_micros(us as u64)),
+                Some(_) => Err(()),
+                None => std::time::SystemTime::now()
+                    .duration_since(epoch)
+                    .map_err(|_| ()),
+            }
+        }
+    }
+}
+
+#[allow(dead_code)]
+fn _unused(_: Duration) {}
